@@ -24,6 +24,8 @@ FLOORS = {"quick": {"waiter_invocations": 20000, "multi_waiter_events": 1500, "f
 # floors for the situations added with the later rounds of seeded changes (evidence that they were really exercised)
 FLOORS["quick"].update({'chained_triggers_fired': 300, 'succeed_with_equal_to_everything_value': 900})
 FLOORS["thorough"].update({'chained_triggers_fired': 1500, 'succeed_with_equal_to_everything_value': 4500})
+FLOORS["quick"].update({'rational_clock_programs': 150, 'succeed_with_mutable_list_value': 500, 'second_triggers_on_ended_processes': 300})
+FLOORS["thorough"].update({'rational_clock_programs': 750, 'succeed_with_mutable_list_value': 2500, 'second_triggers_on_ended_processes': 1500})
 PROFILE = {"weights": {"timeout": 4, "zero": 1, "wait": 5, "succeed": 3, "fail": 2, "spawn": 2, "join": 3,
                        "interrupt": 0.7, "cb": 2, "cond": 1.2, "chain": 0.9, "cbint": 0.2, "ptrigger": 0.6},
            "max_top": 6, "max_child_scripts": 3, "min_ev": 1, "max_ev": 3, "p_exact": 0.85, "p_raise": 0.2,
